@@ -9,6 +9,8 @@
 //!   * writes `<out>/stats.json` (cases, distribution, samples, oracle failures).
 //! `./check` pipes requests.txt through the Lean model driver and diffs it against real.txt.
 
+pub mod gk;
+
 use std::{
     collections::BTreeMap,
     fmt::Write as _,
